@@ -96,8 +96,9 @@ package jpeg
 // binds its own reader (imagemeta.DecodeJPEG: ir.DecodeJPEGIfd) the clause is a refinement obligation on that method
 // (`bindensures`: assumed where the callback is called, proved of a method bound to the slot).
 //@   bindensures [C10] err == nil ==> pos(r) == old(pos(r)) + int(h.ExifLength)
-// the reader handed over is the scanner's own buffered reader
-//@   requires [C10] is(r, "*bufio.Reader")
+// the reader handed over is the scanner's own buffered reader (C06: the Exif reader then works on the same kind of reader as in the
+// other containers, so its limits on value sizes and directory lengths are the same)
+//@   requires [C10 C06] is(r, "*bufio.Reader")
 // the refinement by the library's reader is checked for non-empty payloads (an Exif APP1 segment of length 8 has no TIFF header;
 // exif2 treats a block length of 0 as "unknown" and does not clamp its reads then)
 //@   bindassume [C10] h.ExifLength != 0
